@@ -19,13 +19,20 @@ def configs(tier):
     cs = [Config(levels=1, ndisks=2), Config(levels=2, ndisks=3, hashkind="spooky2", hashsize=8, splits={0: 2, 1: 2}, parity_limit=6144),
           Config(levels=3, z=True, ndisks=2, tag="rehash"),
           Config(levels=1, ndisks=2, tag="scrubbed"),
-          Config(levels=2, ndisks=2, tag="partial")]
+          Config(levels=2, ndisks=2, tag="partial"),
+          Config(levels=1, ndisks=2, tag="gap")]
     if tier == "thorough":
         cs += [Config(levels=6, ndisks=2), Config(levels=3, ndisks=4, blocksize=2), Config(levels=2, ndisks=3, tag="hole")]
     return cs
 
 
 def init_ops(cfg):
+    if cfg.tag == "gap":
+        # a range of stripes in the MIDDLE of the array that no disk uses any more (files deleted on every disk, the deletion synced),
+        # after everything had been scrubbed once: stripes with a check time on both sides of stripes without one
+        return [("write", "d1", "g0", 1024, 0), ("write", "d1", "g1", 2048, 0), ("write", "d1", "g2", 1024, 0),
+                ("write", "d2", "h0", 1000, 0), ("write", "d2", "h1", 2000, 0), ("write", "d2", "h2", 2500, 0),
+                ("cmd", "sync"), ("cmd", "scrub", "-p", "full"), ("rm", "d1", "g1"), ("rm", "d2", "h1"), ("cmd", "sync")]
     ops = [("write", d, "anchor", 700, 0) for d in cfg.disknames]
     ops += [("write", "d1", "a", 2500, 0), ("write", "d1", "sp ace", 1, 0), ("write", "d1", "dir/co:lon", 1024, 0),
             ("write", "d2", "b/c", 1025, 0), ("write", "d2", "five", 9000, 0)]
